@@ -66,12 +66,18 @@ def apply_binder(kind, e, names):
     raise ValueError(kind)
 
 
+QUICK_CHAINS = [  # depth-3 chains run in the quick tier too: two binders that normalisation fuses, then a substitution
+    ("R", "R", "Svar"), ("R", "R", "Sidx"), ("R", "R", "Sexp"), ("R", "Lam", "Sidx"), ("Lam", "R", "Sidx"), ("R", "CatIn", "Sidx"), ("R", "R", "Lam"),
+]
+
+
 def nest_cases(depth):
     out = []
-    for d in range(1, depth + 1):
+    for d in range(1, 4):
         # depth 3 uses the single-name binders only (the multi-name ones are complete to depth 2)
         kinds_d = BINDERS if d <= 2 else tuple(k for k in BINDERS if k not in ("R2", "S2"))
-        for kinds in itertools.product(kinds_d, repeat=d):
+        chains = itertools.product(kinds_d, repeat=d) if d <= depth else QUICK_CHAINS
+        for kinds in chains:
             nslots = 1 + sum(SLOTS[k] for k in kinds)
             for assign in itertools.product(NAMES, repeat=nslots):
                 body = ("B", "mul", _T(("a", "b"), 71), _T((assign[0],), 72))
@@ -248,11 +254,11 @@ def _x_build(kind, names, seed):
     from funsor.tensor import Tensor
     from funsor.terms import Variable, Approximate
 
+    from funsor.integrate import Integrate
+
     p, u, v = names
     A = lambda ns, lid: Tensor(lang.generic_fill(lid, (SZ,) * len(ns), seed), OrderedDict((n, Bint[SZ]) for n in ns))  # noqa
     if kind == "integrate":
-        from funsor.integrate import Integrate
-
         dims_m = tuple(dict.fromkeys((p, u)))
         dims_f = tuple(dict.fromkeys((p, v)))
         m = A(dims_m, 91).log()
